@@ -5,6 +5,7 @@ import (
 	"strings"
 
 	signaling "github.com/aperturerobotics/bifrost/signaling/rpc"
+	"github.com/aperturerobotics/bifrost/util/simhook"
 	"github.com/pkg/errors"
 )
 
@@ -130,6 +131,7 @@ func (s *Server) Session(strm signaling.SRPCSignaling_SessionStream) error {
 	ourPeerTkr := &sessionPeerTracker{}
 
 	// Lock and register initial state.
+	simhook.Yield("sigsrv/session/register", srcPeerIDStr+">"+dstPeerIDStr)
 	s.mtx.Lock()
 
 	// Register that we want a session with that peer.
@@ -159,6 +161,7 @@ func (s *Server) Session(strm signaling.SRPCSignaling_SessionStream) error {
 
 	// Cleanup when we return.
 	defer func() {
+		simhook.Yield("sigsrv/session/cleanup", srcPeerIDStr+">"+dstPeerIDStr)
 		s.mtx.Lock()
 		// Check if we are still the active Session and clear out if so.
 		var currLocalPeer **sessionPeerTracker
@@ -203,6 +206,7 @@ func (s *Server) Session(strm signaling.SRPCSignaling_SessionStream) error {
 		}
 
 		// Mark the outgoing message.
+		simhook.Yield("sigsrv/session/send", srcPeerIDStr+">"+dstPeerIDStr)
 		s.mtx.Lock()
 		defer s.mtx.Unlock()
 
@@ -227,6 +231,7 @@ func (s *Server) Session(strm signaling.SRPCSignaling_SessionStream) error {
 
 	// Function to handle when our peer acks an incoming message.
 	handleAckMsg := func(msgSessionSeqno, ack uint64) error {
+		simhook.Yield("sigsrv/session/ack", srcPeerIDStr+">"+dstPeerIDStr)
 		s.mtx.Lock()
 		defer s.mtx.Unlock()
 
@@ -251,6 +256,7 @@ func (s *Server) Session(strm signaling.SRPCSignaling_SessionStream) error {
 
 	// Function to handle when our peer clears an outgoing message.
 	handleClearMsg := func(msgSessionSeqno, clear uint64) error {
+		simhook.Yield("sigsrv/session/clear", srcPeerIDStr+">"+dstPeerIDStr)
 		s.mtx.Lock()
 		defer s.mtx.Unlock()
 
@@ -316,6 +322,7 @@ func (s *Server) Session(strm signaling.SRPCSignaling_SessionStream) error {
 		case <-waitCh:
 		}
 
+		simhook.Yield("sigsrv/session/loop", srcPeerIDStr+">"+dstPeerIDStr)
 		s.mtx.Lock()
 		// Check if we are still the active session for this key.
 		currLocalPeer, currRemotePeer := sess.getCurrPeers(localIsPeerA)
